@@ -68,6 +68,12 @@ class GenericSDE(nn.Module):
         self.gswitch = spec.get("gswitch")
         self.register_buffer("gconst", 0.3 + 0.4 * torch.rand(d, 1 if nt == "diagonal" else m, generator=gen, dtype=dtype))
 
+        # optional stored diffusion: g returns one and the same stored tensor on every call (a constant diffusion is a valid
+        # diffusion for all four noise types); "clone" returns a fresh copy of it instead
+        self.gstored = spec.get("gstored")
+        gshape = (spec["batch"], d) if nt == "diagonal" else (spec["batch"], d, 1 if nt == "scalar" else m)
+        self.register_buffer("gbuf", 0.3 + 0.5 * torch.rand(*gshape, generator=gen, dtype=dtype))
+
     def _row(self, y, ndim):
         if not self.rowdep:
             return 1.0
@@ -83,6 +89,8 @@ class GenericSDE(nn.Module):
 
     def g(self, t, y):
         nt = self.noise_type
+        if self.gstored and y.size(0) == self.gbuf.size(0):
+            return self.gbuf.clone() if self.gstored == "clone" else self.gbuf
         if self.gswitch is not None and float(t) >= self.gswitch:
             if nt == "diagonal":
                 return self.gconst[:, 0].unsqueeze(0).expand(y.size(0), -1)
@@ -190,5 +198,9 @@ def dyadic_grid(draw, max_log2_steps=6):
     k = draw(st.integers(1, 7))
     dt = 2.0 ** -k
     t0 = draw(st.integers(-8, 8)) * dt
+    if draw(st.sampled_from([False, False, False, True])):
+        # a start time with many significant bits (a multiple of 2^-36: still exact in float64 together with k*dt, but not
+        # representable in float32)
+        t0 = t0 + round(draw(st.sampled_from([0.1, -0.3, 0.7])) * 2 ** 36) / 2 ** 36
     n = draw(st.integers(1, 2 ** max_log2_steps))
     return t0, dt, n
